@@ -359,7 +359,7 @@ func (e *Env) shadow(op *Op, text, vars string, memo *memoTransport) (out []shad
 			kind := kindNames[sc.RPC.Kind]
 			out = append(out, shadowCall{kind: kind, sexp: common.L("call", kind, pathSexp(sc.RPC.ResponsePath),
 				dumpPlanMessage(&sc.RPC.Response, map[*grpcds.RPCMessage]bool{}), common.I(id), common.L(idx...),
-				common.QS(sc.MethodName))})
+				common.I(len(reps)), common.QS(sc.MethodName))})
 		}
 		return nil
 	})
